@@ -15,12 +15,14 @@ import (
 	"strings"
 	"syscall"
 
+	"github.com/bufbuild/buf/private/buf/bufmigrate"
 	"github.com/bufbuild/buf/private/buf/bufwkt/bufwktstore"
 	bufcli "github.com/bufbuild/buf/private/buf/cmd/buf"
 	"github.com/bufbuild/buf/private/bufpkg/bufcas"
 	"github.com/bufbuild/buf/private/bufpkg/bufconfig"
 	"github.com/bufbuild/buf/private/bufpkg/bufmodule"
 	"github.com/bufbuild/buf/private/bufpkg/bufmodule/bufmodulestore"
+	"github.com/bufbuild/buf/private/bufpkg/bufparse"
 	"github.com/bufbuild/buf/private/bufpkg/bufprotoplugin/bufprotopluginos"
 	"github.com/bufbuild/buf/private/gen/data/datawkt"
 	"github.com/bufbuild/buf/private/pkg/app"
@@ -93,6 +95,8 @@ type writePath struct {
 	// heals: a cache that every invocation validates and repairs - after a failed invocation the path is
 	// invoked once more on the same destination (no fault left); if that succeeds the state must be complete
 	heals bool
+	// slow: one invocation costs a tenth of a second: a fifth of the usual fault executions, no cancellation sweep
+	slow bool
 	// atomicFiles: destination objects the path puts atomically: after a FAILED run each of them is absent,
 	// holds what it held before (caseData.oldFiles) or the complete new content - never part of it
 	atomicFiles []string
@@ -204,8 +208,47 @@ var writePaths = []*writePath{
 	}},
 }
 
+// noModuleKeys: the configurations migrated here have no dependencies to resolve.
+type noModuleKeys struct{}
+
+func (noModuleKeys) GetModuleKeysForModuleRefs(_ context.Context, refs []bufparse.Ref, _ bufmodule.DigestType) ([]bufmodule.ModuleKey, error) {
+	if len(refs) > 0 {
+		return nil, errors.New("harness: no registry")
+	}
+	return nil, nil
+}
+
 func init() {
 	writePaths = append(writePaths,
+		// `buf config migrate`: v1 configuration files are deleted, a v2 buf.yaml is put atomically
+		// (slow: every invocation sets up the lint / breaking rule catalogue - few fault executions)
+		&writePath{name: "Migrator.Migrate", slow: true, atomicFiles: []string{"buf.yaml"}, run: func(ctx context.Context, c *caseData, d *dest) error {
+			old := map[string]string{
+				"a/a/v1/a.proto": "syntax = \"proto3\";\npackage a.v1;\nmessage A {}\n",
+				"b/b/v1/b.proto": "syntax = \"proto3\";\npackage b.v1;\nimport \"a/v1/a.proto\";\nmessage B { a.v1.A a = 1; }\n",
+			}
+			workspaceDirs := []string{"."}
+			var moduleDirs []string
+			if len(c.paths)%2 == 0 {
+				// a v1 workspace of two modules
+				old["buf.work.yaml"] = "version: v1\ndirectories:\n  - a\n  - b\n"
+				old["a/buf.yaml"] = "version: v1\nname: buf.build/acme/a\nlint:\n  use:\n    - STANDARD\n  except:\n    - PACKAGE_VERSION_SUFFIX\nbreaking:\n  use:\n    - FILE\n"
+				old["b/buf.yaml"] = "version: v1beta1\nname: buf.build/acme/b\nbuild:\n  roots:\n    - .\nlint:\n  use:\n    - BASIC\n"
+			} else {
+				// one v1 module whose buf.yaml sits where the v2 file will be
+				old = map[string]string{"a/v1/a.proto": old["a/a/v1/a.proto"]}
+				old["buf.yaml"] = "version: v1\nname: buf.build/acme/a\nlint:\n  use:\n    - STANDARD\n  ignore:\n    - a/v1/a.proto\nbreaking:\n  use:\n    - WIRE_JSON\n"
+				workspaceDirs, moduleDirs = nil, []string{"."}
+			}
+			c.oldFiles = old
+			for p, content := range old {
+				if err := storage.PutPath(context.Background(), d.raw, p, []byte(content)); err != nil {
+					return fmt.Errorf("harness: %w", err)
+				}
+			}
+			migrator := bufmigrate.NewMigrator(slogext.NopLogger, noModuleKeys{}, bufmodule.NopCommitProvider)
+			return migrator.Migrate(ctx, d.bucket, workspaceDirs, moduleDirs, nil)
+		}},
 		// the cache of well-known types every `buf ls-files` / LSP start goes through: populated by a plain
 		// copy, validated against the embedded files on every call
 		&writePath{name: "WKTStore.GetBucket", heals: true, run: func(ctx context.Context, c *caseData, d *dest) error {
@@ -662,6 +705,10 @@ func Run(tp *tape.Tape, env *engine.Env) *engine.Outcome {
 
 	c := &caseData{sim: s}
 	c.wp = tape.Pick(tp, "writepath", writePaths)
+	if c.wp.slow && env.Tier != "thorough" && tp.Draw("slowpath", 6) != 5 {
+		// (a slow path gets a sixth of its share in the quick tier)
+		c.wp = tape.Pick(tp, "writepath", writePaths[:8])
+	}
 	if want := os.Getenv("VERIF_WRITEPATH"); want != "" {
 		// debugging aid: force one write path
 		for _, wp := range writePaths {
@@ -769,7 +816,7 @@ func Run(tp *tape.Tape, env *engine.Env) *engine.Outcome {
 	if env.Tier == "thorough" {
 		limit = 400
 	}
-	if many > 0 {
+	if many > 0 || c.wp.slow {
 		limit = limit / 5
 	}
 	if len(all) > limit {
@@ -810,7 +857,8 @@ func Run(tp *tape.Tape, env *engine.Env) *engine.Outcome {
 		}
 		if fired > 0 && err != nil {
 			for _, k := range c.wp.atomicFiles {
-				if v, ok := state[k]; ok && v != E[k] && v != c.oldFiles[k] {
+				// (a memory bucket has no notion of a failed put: what was written is there after Close)
+				if v, ok := state[k]; ok && c.dstKind != "mem" && v != E[k] && v != c.oldFiles[k] {
 					s.Violate("atomic-put-all-or-nothing", "C15|atomic-failed-put-partial|"+site,
 						"%s (dst=%s) failed after %s at %s (%v) and left %d bytes in %s that are neither what it held before (%d bytes) nor the complete new content (%d bytes)", c.wp.name, c.dstKind, in.kind, in.p.key, err, len(v), k, len(c.oldFiles[k]), len(E[k]))
 				}
@@ -847,7 +895,7 @@ func Run(tp *tape.Tape, env *engine.Env) *engine.Outcome {
 	// /dev/full, so whenever the code really writes its bytes - at Write or at a flush hidden in Close -
 	// write(2) fails with ENOSPC. A non-atomic put of that file must make the operation fail.
 	// (write paths that always put atomically replace the link by a complete file: a success there is right)
-	alwaysAtomic := strings.HasPrefix(c.wp.name, "PutBuf") || c.wp.name == "PutFileSetToBucket"
+	alwaysAtomic := strings.HasPrefix(c.wp.name, "PutBuf") || c.wp.name == "PutFileSetToBucket" || len(c.wp.atomicFiles) > 0
 	if (c.dstKind == "os" || c.dstKind == "osmap") && !c.atomic && !alwaysAtomic && !c.wp.modules && !c.wp.cli && !c.wp.rawDst && !c.wp.stream {
 		var victims []string
 		for _, k := range simfs.SortedKeys(E) {
@@ -963,6 +1011,9 @@ func Run(tp *tape.Tape, env *engine.Env) *engine.Outcome {
 	}
 	// cancellation in the middle of the operation: success may only be reported if everything is there
 	ncancel := 3
+	if c.wp.slow {
+		ncancel = 1
+	}
 	if len(refPol.seen) < ncancel {
 		ncancel = len(refPol.seen)
 	}
@@ -993,7 +1044,7 @@ func Run(tp *tape.Tape, env *engine.Env) *engine.Outcome {
 	}
 	// cancellation at an arbitrary scheduling step - also before the operation starts (step 0) and
 	// between the dispatch of a parallel job and its first action (job start / end are steps here)
-	for k := 0; k < 3; k++ {
+	for k := 0; k < 3 && !(c.wp.slow && k > 0); k++ {
 		step := tp.Draw("cancelstep", 2*len(refPol.seen)+3)
 		s.YieldJobs = true
 		n := 0
